@@ -214,6 +214,91 @@ let model_line line =
     (match split_on_sep line with
      | [_; a; b] -> model_k a ^ " ## " ^ model_k b
      | _ -> "UNKNOWN-CASE")
+  | "Y" :: rest ->
+    (* Curry: the original function is called with the passed arguments and the injected values in place *)
+    let a = Array.of_list (List.map int_of_string rest) in
+    let pos = ref 0 in
+    let next () = let v = a.(!pos) in incr pos; v in
+    let counted () = let k = next () in List.init k (fun _ -> next ()) in
+    let orig = counted () in let cur = counted () in let outs = counted () in let steps = next () in
+    (match curry_plan (fun t -> int_of_nat t = 20) (List.map n orig) (List.map n cur) with
+     | None -> "CURRY err"
+     | Some plan ->
+       let show (t, p, s) = if t = 20 then "f" else Printf.sprintf "%d.%d.%d" t p s in
+       let log = List.concat (List.init steps (fun j ->
+           let j = j + 1 in
+           let passed = List.mapi (fun cp t -> (t, 70 + cp, j)) cur in
+           let injected = List.map (fun t -> (int_of_nat t, 10, j)) plan.cp_curried in
+           let args = curry_args (0, 0, 0) plan passed injected in
+           ["O(" ^ String.concat "," (List.map show args) ^ ")";
+            "R(" ^ String.concat "," (List.map (fun t -> show (t, 60, j)) outs) ^ ")"])) in
+       "CURRY ok ; LOG " ^ String.concat " " log)
+  | "V" :: rest ->
+    let a = Array.of_list (List.map int_of_string rest) in
+    let pos = ref 0 in
+    let next () = let v = a.(!pos) in incr pos; v in
+    let counted () = let k = next () in List.init k (fun _ -> next ()) in
+    let tys = counted () in let steps = next () in
+    (match saveto_plan (fun t -> int_of_nat t = 20) (List.map n tys) with
+     | None -> "SAVETO err"
+     | Some ins ->
+       let log = List.init steps (fun j ->
+           "S(" ^ String.concat "," (List.map (fun t -> Printf.sprintf "%d.10.%d" (int_of_nat t) (j + 1)) ins) ^ ")") in
+       "SAVETO ok ; LOG " ^ String.concat " " log)
+  | "F" :: rest ->
+    let a = Array.of_list (List.map int_of_string rest) in
+    let pos = ref 0 in
+    let next () = let v = a.(!pos) in incr pos; v in
+    let counted () = let k = next () in List.init k (fun _ -> next ()) in
+    let ptr = next () <> 0 in
+    let nacts = next () in
+    let acts = List.init nacts (fun _ ->
+        let id = next () in let kind = next () in let karg = next () in let typ = next () in
+        let p = next () <> 0 in let fs = next () <> 0 in let fl = next () <> 0 in
+        { a_id = n id; a_kind = (match kind with 0 -> AByTag (n karg) | 1 -> AByName (n karg) | _ -> AByType);
+          a_type = n typ; a_ptr = p; a_fillSet = fs; a_fill = fl }) in
+    let tid = ref 1000 in
+    let rec shape () =
+      if next () = 0 then FLeaf (n (next ()))
+      else begin
+        let _static = next () in
+        incr tid; let my = !tid in
+        let nf = next () in
+        let fields = List.init nf (fun _ ->
+            let ex = next () <> 0 in let name = next () in let tags = counted () in
+            let sh = shape () in MkFfield (ex, n name, List.map n tags, sh)) in
+        FStruct (n my, fields)
+      end in
+    let model = shape () in
+    let steps = next () in
+    (match struct_plan acts ptr model with
+     | None -> "FILL err"
+     | Some plan ->
+       (* value trees: leaves are (type, producer, step) *)
+       let rec zero ft = (match ft with
+           | FLeaf t -> VL (int_of_nat t, 0, 0)
+           | FStruct (_, fields) -> VS (List.map (fun (MkFfield (_, _, _, sh)) -> zero sh) fields)) in
+       let rec whole j ft = (match ft with
+           | FLeaf t -> VL (int_of_nat t, 50, j)
+           | FStruct (_, fields) -> VS (List.map (fun (MkFfield (ex, _, _, sh)) -> if ex then whole j sh else zero sh) fields)) in
+       let rec type_at path ft = (match path, ft with
+           | [], _ -> ft
+           | i :: r, FStruct (_, fields) -> (match List.nth fields (int_of_nat i) with MkFfield (_, _, _, sh) -> type_at r sh)
+           | _, _ -> ft) in
+       let rec leaves v = (match v with VL x -> [x] | VS l -> List.concat_map leaves l) in
+       let show (t, p, s) = Printf.sprintf "%d.%d.%d" t p s in
+       let out = List.init steps (fun j ->
+           let j = j + 1 in
+           let vals = List.map (fun (_, path) -> (match type_at path model with
+               | FLeaf t -> VL (int_of_nat t, 10, j)
+               | st -> whole j st)) plan.fp_inputs in
+           let tree = fill plan (zero model) vals in
+           let log = List.map (fun ((aid, path), _) ->
+               (match vget path tree with
+                | Some (VL x) -> Printf.sprintf "A%d(%s)" (int_of_nat aid) (show x)
+                | _ -> Printf.sprintf "A%d(?)" (int_of_nat aid))) plan.fp_acts in
+           "LOG " ^ String.concat " " log ^ " ; V " ^ String.concat " " (List.map show (leaves tree))) in
+       "FILL ok ; " ^ String.concat " ; " out)
   | "N" :: _ ->
     (* Condense: the condensed provider's signature, the public flows of the raw collection, and the
        collection bound directly with that signature *)
@@ -493,6 +578,10 @@ let monitor_pair prop case obs =
        else if asker sa <> asker sb then "PASS (the asking provider itself is no longer included; the others are unchanged)"
        else if no_d sa "RES" <> no_d sb "RES" || no_d sa "LOG" <> no_d sb "LOG" then "FAIL asking for *Debugging changes the behaviour"
        else "PASS"
+     | ["PAIR"; "refltwin"; _] when prop = "C20" ->
+       if oa = ob then "PASS"
+       else if ok sa <> ok sb then "FAIL supplying providers through the Reflective interfaces changes whether the chain binds"
+       else "FAIL the chain with Reflective providers differs from the chain of functions: " ^ first_diff (split_ws ob) (split_ws oa)
      | ["PAIR"; "unused"; _] when prop = "C13" ->
        let no_u secs name = List.map (strip_arg "u") (sec name secs) in
        if ok sa <> ok sb then "FAIL adding an Unused parameter changes whether the chain binds"
@@ -577,6 +666,10 @@ let monitor_line prop line =
           end
         | _, [_] -> "PASS (Condense refused the collection)"
         | _ -> "PASS (Condense refused the collection)")
+     | "C20", (("Y" | "V" | "F") :: _) ->
+       (* the model is the direct computation the helper is specified by *)
+       let m = model_line case in
+       if obs = m then "PASS" else "FAIL the generated helper differs from direct computation: " ^ first_diff (split_ws obs) (split_ws m)
      | "C11", "H" :: _ ->
        (* the property itself, on the implementation's observations alone: a never-used copy of the
           description (0), the collection after the history (1, 2, 7) and collections derived from it
